@@ -74,13 +74,18 @@ ASSUMPTIONS = [
     "left-to-right scan; the tolerances are the exact rationals of the doubles passed in the source (regenerated)",
     "SampledDimension / SetDimension theorems carry the hypothesis `Separated`: the position is on a sample or farther "
     "than atol + rtol*|i| from sample i (the tolerance band is a designed-in deviation from the exact statement; "
-    "recorded as open known finding C07-tolerance-band); sampling_interval <= 0 is outside the theorems "
-    "(the validator rejects it); sampling_interval = 0 is outside the model (the code divides by it)",
+    "recorded as open known finding C07-tolerance-band); sampling_interval <= 0 is outside the property (the "
+    "validator rejects it) but inside the model: negative_interval_mirror / zero_interval state what the code does",
+    "sessions: a descriptor object is modelled as the position of its dimension and nothing else (nixio keeps no "
+    "conversion state on it); links into arrays of rank <= 2 and numeric frame columns; delete_dimensions and the "
+    "pre-1.5 alias layout are not modelled",
     "round trip index_of(position_at(i)) = i is a theorem in exact arithmetic; on the implementation the oracle "
     "checks it for |offset|/interval + i <= 2^22, where float noise stays below the tolerance band",
 ]
 TRUSTED_EXTRA = ["harness/extract/dims.py renders the np.isclose tolerances (numpy defaults when absent), the guard "
-                 "argument, the rounding functions, the IndexMode/SliceMode members and the end_mode choices"]
+                 "argument, the rounding functions, the IndexMode/SliceMode members, the end_mode choices and the "
+                 "decision trees of the three index_of bodies (Generated/DimShape.lean; anything it does not recognise "
+                 "is a broken tie)"]
 
 MODES = ["Less", "LessOrEqual", "GreaterOrEqual", "LEQ", "GEQ"]
 CANON_MODE = {"Less": "less", "LessOrEqual": "leq", "LEQ": "leq", "GreaterOrEqual": "geq", "GEQ": "geq"}
@@ -1095,14 +1100,22 @@ MANIFEST = {
                   "offset, positive interval, label count, position and mode under the explicit hypothesis that the "
                   "position is on a sample or outside the tolerance band (Separated), with a band-width theorem over "
                   "the generated tolerances, the unrestricted statement kept as a Prop with a proved counterexample; "
-                  "range_indices for all three kinds; round trips and axes. Two defects of the pinned tree were "
+                  "range_indices for all three kinds; round trips and axes. The decision shape of the three "
+                  "index_of bodies (guards, comparisons, rounding call, np.where scans, result per mode) is translated "
+                  "from the source and the hand-written model is proved equal to it for all inputs. Sessions "
+                  "(Pure/DimSession.lean): for all histories of configuration changes and questions through several "
+                  "descriptor objects the answer is the one for the configuration stored now (change through one "
+                  "handle visible through every other; stored ticks ascending as a reachability invariant; linked "
+                  "ticks read from the source as last rewritten). Two defects of the pinned tree were "
                   "repaired in /repo (fix: 2389173 first-sample guard on the scaled position; fix: 6411d29 explicit "
                   "rtol=1e-12/atol=1e-8) and stay in the corpus and the oracle's fixed case list.",
     "level_note": "Trusted: Lean kernel; axioms propext/Classical.choice/Quot.sound; the dimensions.py translator; the "
                   "Rat stand-ins for IEEE doubles, np.isclose, np.round, np.floor, np.where (exercised by an exact "
                   "dyadic stream that must agree exactly and an arbitrary-double stream with counted marginal cases). "
                   "Partial: positions strictly inside the tolerance band of a sample (open known finding "
-                  "C07-tolerance-band); sampling_interval <= 0 outside the theorems.",
-    "technique": "Lean 4 proof (induction over tick lists, floor/ceil algebra in Q, generated tolerances) with "
-                 "differential correspondence against real nixio dimensions in real HDF5 files",
+                  "C07-tolerance-band); sampling_interval <= 0 is outside the property, the theorems only state "
+                  "what the code does there (mirror image / -inf, nan, +inf).",
+    "technique": "Lean 4 proof (induction over tick lists and over operation histories, floor/ceil algebra in Q, "
+                 "generated tolerances and decision trees) with differential correspondence against real nixio "
+                 "dimensions in real HDF5 files, single conversions and multi-handle histories",
 }
